@@ -138,6 +138,34 @@ def check_dag(parents):
         why = check_order(list(p.values), ops, lambda x: x.parents, f"pipeline iteration #{k + 1}")
         if why:
             return why
+    # iterations that are alive at the same time: an outer walk with a complete inner walk at every step, two walks in
+    # lock-step, and the natural `for op in p.values: op.state()` on a fresh pipeline (state() builds the runtime status,
+    # which itself walks the DAG)
+    outer = []
+    for x in d:
+        outer.append(x)
+        why = check_order(list(d), nodes, lambda y: y.parents, "inner DAG iteration during an outer one")
+        if why:
+            return why
+    why = check_order(outer, nodes, lambda y: y.parents, "outer DAG iteration around inner ones")
+    if why:
+        return why
+    pairs = list(zip(d, d))
+    why = check_order([a for a, _ in pairs], nodes, lambda y: y.parents, "first of two lock-step iterations") or \
+        check_order([b for _, b in pairs], nodes, lambda y: y.parents, "second of two lock-step iterations")
+    if why:
+        return why
+    p3 = Pipeline("p3", Priority.QUERY)
+    o3 = []
+    for ps in parents:
+        o3.append(p3.new_operator([o3[j] for j in ps] or None))
+    walked = []
+    for op in p3.values:
+        op.state()
+        walked.append(op)
+    why = check_order(walked, o3, lambda y: y.parents, "`for op in p.values: op.state()` on a fresh pipeline")
+    if why:
+        return why
     # a pipeline that is iterated while it is still being built (iteration after every insertion)
     d2 = DAG()
     n2 = []
